@@ -61,8 +61,14 @@ TEMPLATES = {
     "default-value-same-name": "lambda e: e.jets.Select(lambda j2, {B}={N}: (j2.pt, {B}))",
     "kwdefault-value-same-name": "lambda e: e.jets.Select(lambda j2, *, {B}={N}: (j2.pt, {B}))",
     "walrus-target": "lambda e: (({B} := e.a) + {B}, 1)",
+    # an inner binder re-uses the spelling of an outer one; the outer one is read (bare) AFTER the inner scope closed
+    "shadow-then-outer-bare": "lambda {B}: ({B}.jets.Select(lambda {B}: {B}.pt), {B})",
+    "shadow-comp-then-outer-bare": "lambda {B}: ([{B}.pt for {B} in {B}.jets], {B})",
+    "shadow-depth2-then-outer-bare": "lambda e: e.jets.Select(lambda {B}: ({B}.tr.Select(lambda {B}: {B}.q), {B}))",
+    "shadow-twice-then-outer-bare": "lambda {B}: ({B}.jets.Select(lambda {B}: {B}.tr.Select(lambda {B}: {B}.q)), {B})",
 }
-SOURCES = ("closure", "closure-over-global", "global", "class", "class-inherited", "nested-class", "module")
+SOURCES = ("closure", "closure-over-global", "global", "class", "class-inherited", "nested-class", "module",
+           "instance-dict", "instance-class-constant", "instance-property", "instance-getattr")
 
 _N = [0]
 
@@ -71,7 +77,7 @@ def module_for(source, template, name, value, op="Select"):
     """generated module text: a build(ds) function that calls ds.<op>(<lambda>) with the lambda inline,
     one lambda per line.  The captured name is `name`."""
     use = {"closure": name, "closure-over-global": name, "global": name, "class": f"K.{name}", "class-inherited": f"K.{name}", "nested-class": f"K.I.{name}",
-           "module": f"cmod.{name}"}[source]
+           "module": f"cmod.{name}"}.get(source, f"K.{name}")
     lam = TEMPLATES[template].format(N=use, B=name)
     head = ""
     if source == "global":
@@ -84,6 +90,15 @@ def module_for(source, template, name, value, op="Select"):
         head = f"class K:\n    class I:\n        {name} = VALUE\n"
     elif source == "module":
         head = "import fadlmc_c04_cmod as cmod\n"
+    elif source == "instance-dict":  # K is an object (a settings holder); the value lives in the instance
+        head = f"class KI:\n    def __init__(self):\n        self.{name} = VALUE\nK = KI()\n"
+    elif source == "instance-class-constant":
+        head = f"class KC:\n    {name} = VALUE\nK = KC()\n"
+    elif source == "instance-property":
+        head = f"class KP:\n    @property\n    def {name}(self):\n        return VALUE\nK = KP()\n"
+    elif source == "instance-getattr":  # a wrapper that serves its settings through __getattr__
+        head = (f"class KG:\n    def __getattr__(self, n):\n        if n == '{name}':\n            return VALUE\n"
+                f"        raise AttributeError(n)\nK = KG()\n")
     if source == "closure-over-global":
         head = f"{name} = 'the module global of the same name'\n"
     if source in ("closure", "closure-over-global"):
@@ -167,8 +182,7 @@ class C04(Check):
         depth = 4 if Q else 5
         return [Space("programs", {"sources": SOURCES, "shapes": list(TEMPLATES), "values": list(VALUES)}, cases,
                       runner="run_prog"),
-                Space(f"histories<={depth}", {"depth": depth, "ops": ["derive-global", "derive-closure", "derive-class",
-                                                                      "rebind", "delete", "execute"]},
+                Space(f"histories<={depth}", {"depth": depth, "ops": list(HModel.ALL) + ["rebind", "delete", "execute"]},
                       (lambda depth=depth: [("hist", depth, (op,)) for op in HModel().enabled(HModel().fresh())]),
                       runner="run_hist")]
 
@@ -292,8 +306,20 @@ def mk():
     def setx(n):
         nonlocal x
         x = n
-    return derive_closure, setx
-derive_closure, setx = mk()
+    def helper_c(q):
+        return (q, x)
+    def derive_helper_closure(s):
+        return s.Select(
+            lambda e: helper_c(e.a)
+        )
+    return derive_closure, setx, derive_helper_closure
+derive_closure, setx, derive_helper_closure = mk()
+def helper(q):
+    return (q, v)
+def derive_helper(s):
+    return s.Select(
+        lambda e: helper(e.a)
+    )
 def derive_global(s):
     return s.Select(
         lambda e: (e.a, v)
@@ -342,6 +368,12 @@ def _consts(a):
 
 class HModel:
     NEW = {"v": 2, "x": 200, "c": 20}
+    ALL = ("derive-global", "derive-named", "derive-closure", "derive-class", "derive-helper", "derive-helper-closure")
+    VAR = {"derive-global": "v", "derive-closure": "x", "derive-class": "c", "derive-named": "v", "derive-helper": "v",
+           "derive-helper-closure": "x"}
+
+    def __init__(self, derives=ALL, delete=True):
+        self.derives, self.delete = tuple(derives), delete
 
     def fresh(self):
         return HWorld()
@@ -349,16 +381,14 @@ class HModel:
     def enabled(self, w):
         ops = []
         for i in range(len(w.streams)):
-            if w.alive["v"]:
-                ops.append(("derive-global", i))
-                ops.append(("derive-named", i))
-            ops.append(("derive-closure", i))
-            ops.append(("derive-class", i))
+            for d in self.derives:
+                if self.VAR[d] != "v" or w.alive["v"]:
+                    ops.append((d, i))
             ops.append(("execute", i))
-        for var in ("v", "x", "c"):
+        for var in sorted({self.VAR[d] for d in self.derives}):
             if var != "v" or w.alive["v"]:
                 ops.append(("rebind", var))
-        if w.alive["v"]:
+        if w.alive["v"] and self.delete and "v" in {self.VAR[d] for d in self.derives}:
             ops.append(("delete", "v"))
         return ops
 
@@ -377,9 +407,8 @@ class HModel:
         w.last = kind
         viol = []
         if kind.startswith("derive"):
-            fn = {"derive-global": "derive_global", "derive-closure": "derive_closure", "derive-class": "derive_class",
-                  "derive-named": "derive_named"}[kind]
-            var = {"derive-global": "v", "derive-closure": "x", "derive-class": "c", "derive-named": "v"}[kind]
+            fn = kind.replace("-", "_")
+            var = self.VAR[kind]
             try:
                 s = w.g[fn](w.streams[arg])
             except Exception as e:
